@@ -43,20 +43,8 @@ class DefHooks(A.Hooks):
         self.ifx = ifx
 
     def call(self, interp, node, fname, args, kwargs, state):
-        if fname == 'iter' and len(args) == 1:
-            return A.Sym('defiter')
         if fname == 'int' and len(args) == 1 and isinstance(args[0], A.Sym) and str(args[0].attrs.get('char', '')).isdigit():
             return int(args[0].attrs['char'])
-        return None
-
-    def iter_item(self, interp, loop, k, state):
-        it = interp.ev(loop.iter, state)
-        if isinstance(it, A.Sym) and it.label == 'defiter':
-            pos = state.env.get('__pos', 0)
-            if pos >= len(self.items):
-                return A.STOP
-            state.env['__pos'] = pos + 1
-            return self.items[pos]
         return None
 
     def decide(self, interp, test, state):
@@ -99,9 +87,9 @@ def r21(chk, m):
         got = set()
         for kind, s, v in outs:
             got.add(repr(labels(v)) if isinstance(v, list) else repr(v))
-        chk.verdict(R, 'expandDef: %s' % label, got == {repr(want)},
-                    'body %s with parameters %s expands to %s, expected %s'
-                    % (labels(definition), [labels(p) if p else p for p in params], sorted(got), want), chk.where(fn), str(sorted(got)))
+        chk.decide(R, 'expandDef: %s' % label, got, {repr(want)},
+                   'body %s with parameters %s expands to %s, expected %s'
+                   % (labels(definition), [labels(p) if p else p for p in params], sorted(got), want), chk.where(fn))
 
 
 def r22(chk, m):
